@@ -327,6 +327,10 @@ Section OCalls.
   Lemma file_mode_nodir os x um : has (N.lor (file_mode os) (N.ldiff (N.land x FILE_MODE_MASK) um)) MODE_DIR = false.
   Proof. rewrite has_lor, no_dir_bit by reflexivity. destruct os; reflexivity. Qed.
 
+  (* the set-group-ID bit a new directory inherits does not touch the directory bit *)
+  Lemma has_inherit (b : bool) m : has (if b then N.lor m MODE_SETGID else m) MODE_DIR = has m MODE_DIR.
+  Proof. destruct b; [|reflexivity]. rewrite has_lor. change (has MODE_SETGID MODE_DIR) with false. apply orb_false_r. Qed.
+
   (* creation of a node under related states *)
   Lemma o_create_node_sim sw sl (O : orel sw sl) parent (k name : str) mw ml :
     keyok k -> k <> [] -> map phi name = name /\ okstr name -> has mw MODE_DIR = has ml MODE_DIR ->
@@ -339,7 +343,7 @@ Section OCalls.
     - rewrite (or_index O). apply (aset_W d).
     - apply keys_aset; [exact Hk|apply O].
     - apply o_add_child_sim. apply Forall2_app; [apply O|]. constructor; [|constructor].
-      unfold onrel, on_dir. cbn. rewrite (or_id O). auto.
+      unfold onrel, on_dir. cbn [on_ch on_data on_nlink on_id on_meta m_mode]. rewrite (or_id O), !has_inherit. auto.
     - apply o_add_child_names; [exact Hn|]. apply Forall_app. split; [apply O|]. constructor; [constructor|constructor].
     - rewrite (or_id O). reflexivity.
     - apply O.
